@@ -5,7 +5,7 @@ From Coq Require Import ZArith List Bool.
 Import ListNotations.
 From Coq Require Import Sorted Permutation.
 Require Import MD.Neigh.Model MD.Neigh.Arith MD.Neigh.NeighborsProofs MD.Neigh.NlistProofs MD.Neigh.Complete
-  MD.Neigh.Complete2 MD.Neigh.CompleteOpen MD.Neigh.Bins MD.Neigh.BinsProofs MD.Neigh.BinsRefine MD.Neigh.Api MD.Neigh.ApiProofs.
+  MD.Neigh.Complete2 MD.Neigh.CompleteOpen MD.Neigh.Bins MD.Neigh.BinsProofs MD.Neigh.BinsRefine MD.Neigh.Api MD.Neigh.ApiProofs MD.Neigh.Windows.
 Open Scope Z_scope.
 
 (* compute_neighbors (one frame) = the haystack, in its order, filtered by "some query atom j <> i has
@@ -398,3 +398,40 @@ Example wrapper_model_runs :
   compute_neighborlist_api api_example 700 2 true = NlIndexError.
 Proof. exact api_example_runs. Qed.
 Print Assumptions wrapper_model_runs.
+
+(* ===================================================================================================================
+   The voxel WINDOWS of Voxels::getNeighbors as written (part of the triclinic completeness that is otherwise still PARTIAL:
+   the four-corner x-range logic of the triclinic branch remains unproved).
+   The y window of the image cell reached at loop value z is the centre's window moved by yoffset = boxz*c_y and widened
+   (starty -= ceil(yoffset/voxelSizeY), endy -= floor(yoffset/voxelSizeY)): it contains the loop index of every voxel of that
+   image cell holding a point whose y coordinate is within the cutoff of the centre's -- whenever there are enough y voxels
+   that neither cap applies (2*(floor(cutoff/voxelSizeY)+1)+2 <= ny). *)
+Theorem triclinic_ywindow_covers_the_cutoff : forall g c vyi z yp Y,
+  g_per g = true -> (g_fully g && g_tric g && (g_nz g <? 5)) = false ->
+  0 < g_syn g -> 0 < g_syd g -> 0 <= c ->
+  2 * (c * g_syd g / g_syn g + 1) + 2 <= g_ny g ->
+  vyi = yp * g_syd g / g_syn g ->
+  yp - c <= Y <= yp + c ->
+  In ((Y - yoffset g z) * g_syd g / g_syn g) (ywindow g c vyi z).
+Proof. exact ywindow_covers. Qed.
+Print Assumptions triclinic_ywindow_covers_the_cutoff.
+
+Theorem zwindow_covers_the_cutoff : forall g c vzi zp Zc,
+  g_per g = true -> 0 < g_szn g -> 0 < g_szd g -> 0 <= c ->
+  2 * (c * g_szd g / g_szn g + 1) + 1 <= g_nz g ->
+  vzi = zp * g_szd g / g_szn g ->
+  zp - c <= Zc <= zp + c ->
+  In (Zc * g_szd g / g_szn g) (zwindow g c vzi).
+Proof. exact zwindow_covers. Qed.
+Print Assumptions zwindow_covers_the_cutoff.
+
+(* a y window moved rigidly by floor(yoffset/voxelSizeY) at both ends does NOT have the property (it drops the lowest voxel
+   whenever yoffset is not a whole number of voxels): same hypotheses, a point at exactly the cutoff in y *)
+Theorem triclinic_ywindow_rigid_shift_refuted :
+  exists g c yp Y z,
+    g_per g = true /\ (g_fully g && g_tric g && (g_nz g <? 5)) = false /\
+    2 * (c * g_syd g / g_syn g + 1) + 2 <= g_ny g /\ yp - c <= Y <= yp + c /\
+    existsb (Z.eqb ((Y - yoffset g z) * g_syd g / g_syn g)) (ywindow g c (yp * g_syd g / g_syn g) z) = true /\
+    existsb (Z.eqb ((Y - yoffset g z) * g_syd g / g_syn g)) (ywindow_rigid g c (yp * g_syd g / g_syn g) z) = false.
+Proof. exact ywindow_rigid_counterexample. Qed.
+Print Assumptions triclinic_ywindow_rigid_shift_refuted.
